@@ -188,7 +188,8 @@ def main(tier, seed):
     if pr["forbidden"]:
         res.violation("forbidden vernacular in coq/", {"forbidden": pr["forbidden"]}, found_input=False)
     try:
-        bdir = build_impl("dbg")
+        CFG = os.environ.get("C08_CFG", "asan")
+        bdir = build_impl(CFG)
         extract_and_build_drivers()
     except BuildError as e:
         res.violation("build failed: %s" % e, {"error": str(e)}, found_input=False)
@@ -222,12 +223,12 @@ def main(tier, seed):
         text = render(hs, "cx_%d_%d" % (seed, k))
         fexp = os.path.join(wroot, "cx_%d.exp" % k)
         open(fexp, "w").write(text)
-        sl = schema_lib(bdir, fexp)
+        sl = schema_lib(bdir, fexp, cfg=CFG)
         if not sl["ok"]:
             oracle_fail += 1
             res.violation("exp2cxx output for a valid schema does not build: %s" % sl["log"][-300:], {"input_file": save("c08-%d-%d.exp" % (seed, k), text)})
             continue
-        exe = schema_harness(bdir, sl, "h_complex")
+        exe = schema_harness(bdir, sl, "h_complex", cfg=CFG)
         queries = []
         for hi, h in enumerate(hs):
             names = [e["name"] for e in h.ents]
@@ -238,7 +239,7 @@ def main(tier, seed):
         for _ in range(6):
             a, b = r.sample(range(per_schema), 2)
             queries.append((None, (hs[a].ents[0]["name"], hs[b].ents[0]["name"])))
-        rc, out, err = sh([exe], input=("\n".join("S " + " ".join(q[1]) for q in queries) + "\n").encode(), timeout=1800)
+        rc, out, err = sh([exe], input=("\n".join("S " + " ".join(q[1]) for q in queries) + "\n").encode(), timeout=1800, env={"ASAN_OPTIONS": "detect_leaks=0"})
         got = out.split("\n")
         # model, one driver process per hierarchy
         for hi, h in enumerate(hs):
@@ -299,7 +300,7 @@ def main(tier, seed):
             if len(samples) < 3 and n_legal:
                 samples.append({"hierarchy": render([h], "s").replace("\n", " ")[:200], "subsets": len(qs), "legal": n_legal})
         # ---- through the reader: #n=(A()B()...) in three part orders, between two ordinary instances
-        hfile = schema_harness(bdir, sl, "h_file")
+        hfile = schema_harness(bdir, sl, "h_file", cfg=CFG)
         nfile = 8 if tier == "quick" else 30
         cand = [(qi, q) for qi, q in enumerate(queries) if q[0] is not None and (got[qi].strip() if qi < len(got) else "") in ("R 1", "R 0")]
         r.shuffle(cand)
@@ -319,7 +320,7 @@ def main(tier, seed):
                          "FILE_SCHEMA(('CX_%d_%d'));\nENDSEC;\nDATA;\n%sENDSEC;\nEND-ISO-10303-21;\n" % (seed, k, body))
                 fp = os.path.join(wroot, "cx.p21")
                 open(fp, "w").write(ftext)
-                rcf, fo, fe = sh([hfile, "read", fp, "dump", "-"], timeout=120)
+                rcf, fo, fe = sh([hfile, "read", fp, "dump", "-"], timeout=120, env={"ASAN_OPTIONS": "detect_leaks=0"})
                 evals += 1
                 hist["file_reads"] += 1
                 ids_seen = sorted(set(int(x) for x in __import__("re").findall(r"^INST \d+ #(\d+) ", fo, __import__("re").M)))
